@@ -167,27 +167,98 @@ def translate_mystery(source):
     return text
 
 
+# ------------------------------------------------------------------ zeta_grid.populate_zeta_grid: the two bounds
+
+def _bound(node, qname, lo_sub, hi_sub, step):
+    """Gallina Z-expression of one bound of range(...).  Grammar accepted:
+         int(math.floor(B / S)) | int(math.ceil(B / S)) | int(B / S) | math.floor(B / S) | math.ceil(B / S)
+         | E + n | E - n        (n an integer literal)
+       with B one of the two bounds read from the SELECT and S the step argument."""
+    def quotient(q):
+        if (isinstance(q, ast.BinOp) and isinstance(q.op, ast.Div) and _name(q.right) == step
+                and ast.unparse(q.left) in (lo_sub, hi_sub)):
+            return 'qlo' if ast.unparse(q.left) == lo_sub else 'qhi'
+        raise Refused('quotient %s' % ast.unparse(q))
+
+    def rounded(e):
+        if isinstance(e, ast.Call) and ast.unparse(e.func) in ('math.floor', 'math.ceil') and len(e.args) == 1:
+            return '(%s %s)' % ('Qfloor' if ast.unparse(e.func) == 'math.floor' else 'Qceiling', quotient(e.args[0]))
+        raise Refused('rounding %s' % ast.unparse(e))
+
+    if isinstance(node, ast.BinOp) and isinstance(node.op, (ast.Add, ast.Sub)) and isinstance(node.right, ast.Constant) \
+            and isinstance(node.right.value, int):
+        return '(%s %s %d)%%Z' % (_bound(node.left, qname, lo_sub, hi_sub, step),
+                                 '+' if isinstance(node.op, ast.Add) else '-', node.right.value)
+    if isinstance(node, ast.Call) and _name(node.func) == 'int' and len(node.args) == 1:
+        inner = node.args[0]
+        if isinstance(inner, ast.Call):
+            return rounded(inner)            # int() of an integral float is exact
+        return '(Qtrunc0 %s)' % quotient(inner)   # int() truncates toward zero
+    return rounded(node)
+
+
+def translate_zeta_grid(source):
+    tree = ast.parse(source)
+    fn = next((n for n in tree.body if isinstance(n, ast.FunctionDef) and n.name == 'populate_zeta_grid'), None)
+    if fn is None:
+        raise Refused('function populate_zeta_grid not found')
+    args = [a.arg for a in fn.args.args]
+    if len(args) != 2:
+        raise Refused('signature %r' % args)
+    step = args[1]
+    selects = [n for n in ast.walk(fn) if isinstance(n, ast.Constant) and isinstance(n.value, str)
+               and 'SELECT' in n.value.upper()]
+    flat = [' '.join(n.value.split()).lower() for n in selects]
+    if flat != ['select min(zeta_mm), max(zeta_mm) from water_level']:
+        raise Refused('bounds query %r' % flat)
+    fetch = [n for n in ast.walk(fn) if isinstance(n, ast.Assign) and len(n.targets) == 1 and _name(n.targets[0])
+             and ast.unparse(n.value).endswith('.fetchone()')]
+    if len(fetch) != 1:
+        raise Refused('expected one `X = cursor.fetchone()`')
+    b = _name(fetch[0].targets[0])
+    ranges = [n for n in ast.walk(fn) if isinstance(n, ast.Call) and _name(n.func) == 'range']
+    if len(ranges) != 1 or len(ranges[0].args) != 2 or ranges[0].keywords:
+        raise Refused('expected exactly one range(lo, hi)')
+    comps = [n for n in ast.walk(fn) if isinstance(n, ast.ListComp)]
+    if len(comps) != 1 or len(comps[0].generators) != 1 or comps[0].generators[0].iter is not ranges[0] \
+            or comps[0].generators[0].ifs or ast.unparse(comps[0].elt) != '(%s,)' % _name(comps[0].generators[0].target):
+        raise Refused('the INSERT must take [(zn,) for zn in range(lo, hi)]')
+    lo = _bound(ranges[0].args[0], 'q', '%s[0]' % b, '%s[1]' % b, step)
+    hi = _bound(ranges[0].args[1], 'q', '%s[0]' % b, '%s[1]' % b, step)
+    return (
+        '(** GENERATED by harness/translate.py from spowtd/zeta_grid.py:populate_zeta_grid - do not edit, never committed. *)\n'
+        'From Coq Require Import ZArith QArith Qround.\n\n'
+        '(** int(x) of Python: truncation toward zero *)\n'
+        'Definition Qtrunc0 (q : Q) : Z := if Qle_bool 0 q then Qfloor q else Qceiling q.\n\n'
+        '(** the two bounds of range(...), from qlo = min(zeta_mm) / step and qhi = max(zeta_mm) / step\n'
+        '    (exact values of the binary64 quotients) *)\n'
+        'Definition gen_grid_lo (qlo qhi : Q) : Z := %s.\n'
+        'Definition gen_grid_hi (qlo qhi : Q) : Z := %s.\n' % (lo, hi))
+
+
 def regenerate():
     """Write coq/Generated/*.v from the tree under test (only when the text changes, so that make
     rebuilds exactly when the source's meaning for the translator changed).  Returns a list of
     problems (empty = translated)."""
     os.makedirs(GEN_DIR, exist_ok=True)
-    path = os.path.join(GEN_DIR, 'MysteryGen.v')
     problems = []
-    try:
-        src = open(os.path.join(C.REPO, 'spowtd', 'classify.py')).read()
-        text = translate_mystery(src)
-    except (Refused, SyntaxError, OSError, IndexError) as e:
-        problems.append('translator refuses spowtd/classify.py:get_mystery_jump_mask: %s' % e)
-        text = ('(** GENERATED: the translator REFUSED the current source (%s). *)\n'
-                'From Coq Require Import List Bool.\n'
-                'Definition translation_refused : bool := true.\n' % str(e).replace('*)', '* )'))
-    old = open(path).read() if os.path.exists(path) else None
-    if old != text:
-        with open(path, 'w') as f:
-            f.write(text)
+    for fname, pyfile, what, fn in (('MysteryGen.v', 'classify.py', 'get_mystery_jump_mask', translate_mystery),
+                                    ('ZetaGridGen.v', 'zeta_grid.py', 'populate_zeta_grid', translate_zeta_grid)):
+        path = os.path.join(GEN_DIR, fname)
+        try:
+            text = fn(open(os.path.join(C.REPO, 'spowtd', pyfile)).read())
+        except (Refused, SyntaxError, OSError, IndexError) as e:
+            problems.append('translator refuses spowtd/%s:%s: %s' % (pyfile, what, e))
+            text = ('(** GENERATED: the translator REFUSED the current source (%s). *)\n'
+                    'From Coq Require Import List Bool.\n'
+                    'Definition translation_refused : bool := true.\n' % str(e).replace('*)', '* )'))
+        old = open(path).read() if os.path.exists(path) else None
+        if old != text:
+            with open(path, 'w') as f:
+                f.write(text)
     return problems
 
 
 if __name__ == '__main__':
-    print(regenerate() or open(os.path.join(GEN_DIR, 'MysteryGen.v')).read())
+    print(regenerate() or (open(os.path.join(GEN_DIR, 'MysteryGen.v')).read() +
+                           open(os.path.join(GEN_DIR, 'ZetaGridGen.v')).read()))
